@@ -268,7 +268,7 @@ func runC11(r *mc.Run) {
 				r.HarnessError("C11 driver self-check: generated honest quote is not honest (%v)", perr)
 				return
 			}
-			err := w.Verify(level)
+			err := verifyRawBoth(r, id, raw, w.Options(level))
 			out := verdict(err)
 			if err != nil {
 				r.Violate("honest-rejected:"+lvlName[level]+":"+c11Dims(c), id, "an honestly produced, in-date quote is rejected at "+lvlName[level]+": "+errStr(err), map[string]any{"raw_quote_hex_prefix": hexs(raw[:700])})
